@@ -518,12 +518,14 @@ func (bh *Header) RemoveReference(r *Reference) error {
 	if r.id < 0 || int(r.id) >= len(bh.refs) || bh.refs[r.id] != r {
 		return errInvalidReference
 	}
+	delete(bh.seenRefs, r.name)
 	bh.refs = append(bh.refs[:r.id], bh.refs[r.id+1:]...)
-	for i := range bh.refs[r.id:] {
-		bh.refs[i+int(r.id)].id--
+	for _, sr := range bh.refs[r.id:] {
+		sr.id--
+		bh.seenRefs[sr.name] = sr.id
 	}
 	r.id = -1
-	delete(bh.seenRefs, r.name)
+	r.owner = nil
 	return nil
 }
 
@@ -548,12 +550,14 @@ func (bh *Header) RemoveReadGroup(rg *ReadGroup) error {
 	if rg.id < 0 || int(rg.id) >= len(bh.refs) || bh.rgs[rg.id] != rg {
 		return errInvalidReadGroup
 	}
+	delete(bh.seenGroups, rg.name)
 	bh.rgs = append(bh.rgs[:rg.id], bh.rgs[rg.id+1:]...)
-	for i := range bh.rgs[rg.id:] {
-		bh.rgs[i+int(rg.id)].id--
+	for _, sg := range bh.rgs[rg.id:] {
+		sg.id--
+		bh.seenGroups[sg.name] = sg.id
 	}
 	rg.id = -1
-	delete(bh.seenGroups, rg.name)
+	rg.owner = nil
 	return nil
 }
 
@@ -578,11 +582,13 @@ func (bh *Header) RemoveProgram(p *Program) error {
 	if p.id < 0 || int(p.id) >= len(bh.progs) || bh.progs[p.id] != p {
 		return errInvalidProgram
 	}
+	delete(bh.seenProgs, p.uid)
 	bh.progs = append(bh.progs[:p.id], bh.progs[p.id+1:]...)
-	for i := range bh.progs[p.id:] {
-		bh.progs[i+int(p.id)].id--
+	for _, sp := range bh.progs[p.id:] {
+		sp.id--
+		bh.seenProgs[sp.uid] = sp.id
 	}
 	p.id = -1
-	delete(bh.seenProgs, p.uid)
+	p.owner = nil
 	return nil
 }
